@@ -54,7 +54,7 @@ man = {
     "engines": [{"name": "bpverif", "path": "bpverif/", "serves_properties": [c['property_id'] for c in checks], "kind_free_text": "Python package: own schema model + bit-list reference encoder (oracle), Hypothesis strategies composing schema features, executors for generated Python/C/Go, sharded runner"}],
     "checks": checks,
     "not_applicable": na,
-    "notes": "Every check: exit 0 held / 1 VIOLATION / 2 harness error. VERIF_SEED selects the Hypothesis seed (seed*1000+shard).",
+    "notes": "Every check: exit 0 held / 1 VIOLATION / 2 harness error. VERIF_SEED selects the Hypothesis seed (seed*1000+shard). DESIGN.md section 0 is the status as built: defects found and their disposition (fix: commits in /repo, known_findings.json + known_findings.d/), false alarms met, sensitivity (mutants/RESULTS.md) and five rounds of independently written breaking changes (seeded/, 100 changes) with what each taught the generators.",
 }
 json.dump(man, open('MANIFEST.json','w'), indent=1); open('MANIFEST.json','a').write("\n")
 print(len(checks), "checks;", len(na), "not applicable")
